@@ -1,5 +1,8 @@
 """Synthetic inputs for the tagger checks (C05, C20): abstract contig layout -> fragments -> BAM.
 
+The mate number is promised (pm = 1/2) for every record whose mate is also in the file (literal reading of "when both
+mates are present"): proper pairs, half-mapped pairs, pairs on different contigs, unmapped pairs; not for orphans/singles.
+
 The abstract description comes first (layout: contigs with a length class and a number of fragments,
 number of unplaced fragments; per fragment a *kind*), the BAM bytes are derived from it, and the ground
 truth the property needs (is the mate number promised? is the fragment a valid one for the protocol?)
@@ -18,6 +21,11 @@ Fragment kinds (what the mate-pairing library delivers is taken as given, the st
   secondary   a secondary alignment of an extra read (outside the claim)
   sec_only    nothing but a supplementary alignment (outside the claim): the contig has reads, yet no molecule is written
   orphan_unmapped  an unmapped read placed on the contig whose mapped mate is absent (idxstats: 0 mapped, 1 unmapped)
+  half_r1u    R1 unmapped (placed at R2), R2 mapped: both mates in the file, delivered one by one   both invalid
+  cross       R1 on this contig, R2 on another contig of the layout (falls back to `pair` when there is none)
+  unmapped_placed_pair  both mates unmapped but placed on the contig                               invalid
+  umi_bridge  three pairs of one cell at one cut site with UMIs A, B (distance 2) and then C at distance 1 of both:
+              C matches two buffered molecules and must join exactly one of them
   dup_lane    copy of the previous pair sequenced on another lane / flowcell: same molecule, different read group,
               and that read group is not the first fragment of any molecule
   unplaced_pair / unplaced_single   unmapped, no position                      invalid
@@ -31,7 +39,7 @@ BIG_LENGTHS = [100_000, 100_001, 250_000]
 THRESHOLD = 100_000
 
 PLACED_KINDS = ['pair', 'pair_rev', 'dup', 'single', 'nomotif', 'qcfail', 'half', 'orphan_r2', 'orphan_r1', 'secondary',
-                'dup_lane', 'orphan_unmapped', 'sec_only']
+                'dup_lane', 'orphan_unmapped', 'sec_only', 'half_r1u', 'cross', 'unmapped_placed_pair', 'umi_bridge']
 SIMPLE_KINDS = ['pair', 'single', 'pair_rev']
 UNPLACED_KINDS = ['unplaced_pair', 'unplaced_single']
 
@@ -158,8 +166,53 @@ def build(layout, rng, method='nla'):
                 r2 = bamgen.make_read(header, name, cn, pos, _seq(rng, l2), _qual(rng, l2), paired=True, read2=True, unmapped=True,
                                       mate_contig=cn, mate_pos=pos, tags=tg)
                 reads += [r1, r2]
-                note(name, 1, 0, True, kind, cn)
-                note(name, 2, 0, False, kind, cn)
+                note(name, 1, 1, True, kind, cn)
+                note(name, 2, 2, False, kind, cn)
+            elif kind == 'half_r1u':
+                r1 = bamgen.make_read(header, name, cn, pos, _seq(rng, l1, start='CATG'), _qual(rng, l1), paired=True, read1=True,
+                                      unmapped=True, mate_contig=cn, mate_pos=pos, mate_reverse=True, tags=tg)
+                r2 = bamgen.make_read(header, name, cn, pos, _seq(rng, l2), _qual(rng, l2), paired=True, read2=True, reverse=True,
+                                      mate_contig=cn, mate_pos=pos, mate_unmapped=True, tags=tg)
+                reads += [r1, r2]
+                note(name, 1, 1, False, kind, cn)
+                note(name, 2, 2, False, kind, cn)
+            elif kind == 'unmapped_placed_pair':
+                for bit, ln in ((1, l1), (2, l2)):
+                    reads.append(bamgen.make_read(header, name, cn, pos, _seq(rng, ln), _qual(rng, ln), paired=True, read1=(bit == 1),
+                                                  read2=(bit == 2), unmapped=True, mate_unmapped=True, mate_contig=cn, mate_pos=pos,
+                                                  tags=tg))
+                    note(name, bit, bit, False, kind, cn)
+            elif kind == 'cross':
+                others = [o for o in layout['contigs'] if o['name'] != cn and o['kinds'] and set(o['kinds']) != {'orphan_unmapped'}]
+                if not others:
+                    r1 = bamgen.make_read(header, name, cn, pos, _seq(rng, l1, start='CATG'), _qual(rng, l1), paired=True, proper=True,
+                                          read1=True, mate_contig=cn, mate_pos=pos + 40, mate_reverse=True, tlen=40 + l2, tags=tg)
+                    r2 = bamgen.make_read(header, name, cn, pos + 40, _seq(rng, l2), _qual(rng, l2), paired=True, proper=True,
+                                          read2=True, reverse=True, mate_contig=cn, mate_pos=pos, tlen=-(40 + l2), tags=tg)
+                    reads += [r1, r2]
+                    note(name, 1, 1, True, 'pair', cn)
+                    note(name, 2, 2, True, 'pair', cn)
+                else:
+                    o = others[serial[0] % len(others)]
+                    p2 = min(60 + 17 * (serial[0] % 50), o['len'] - 100)
+                    r1 = bamgen.make_read(header, name, cn, pos, _seq(rng, l1, start='CATG'), _qual(rng, l1), paired=True, read1=True,
+                                          mate_contig=o['name'], mate_pos=p2, mate_reverse=True, tags=tg)
+                    r2 = bamgen.make_read(header, name, o['name'], p2, _seq(rng, l2), _qual(rng, l2), paired=True, read2=True,
+                                          reverse=True, mate_contig=cn, mate_pos=pos, tags=tg)
+                    reads += [r1, r2]
+                    note(name, 1, 1, True, kind, cn)
+                    note(name, 2, 2, False, kind, o['name'])
+            elif kind == 'umi_bridge':
+                for suffix, u in (('a', 'AAA'), ('b', 'ATT'), ('c', 'AAT')):
+                    t3 = dict(tg, RX=u)
+                    nm = name + suffix
+                    r1 = bamgen.make_read(header, nm, cn, pos, _seq(rng, l1, start='CATG'), _qual(rng, l1), paired=True, proper=True,
+                                          read1=True, mate_contig=cn, mate_pos=pos + 40, mate_reverse=True, tlen=40 + l2, tags=t3)
+                    r2 = bamgen.make_read(header, nm, cn, pos + 40, _seq(rng, l2), _qual(rng, l2), paired=True, proper=True,
+                                          read2=True, reverse=True, mate_contig=cn, mate_pos=pos, tlen=-(40 + l2), tags=t3)
+                    reads += [r1, r2]
+                    note(nm, 1, 1, True, kind, cn)
+                    note(nm, 2, 2, True, kind, cn)
             elif kind == 'orphan_r2':
                 reads.append(bamgen.make_read(header, name, cn, pos + 40, _seq(rng, l2), _qual(rng, l2), paired=True, proper=True,
                                               read2=True, reverse=True, mate_contig=cn, mate_pos=pos, tlen=-(40 + l2), tags=tg))
@@ -194,8 +247,8 @@ def build(layout, rng, method='nla'):
                                           unmapped=True, mate_unmapped=True, tags=tg))
             reads.append(bamgen.make_read(header, name, None, 0, _seq(rng, l2), _qual(rng, l2), paired=True, read2=True,
                                           unmapped=True, mate_unmapped=True, tags=tg))
-            note(name, 1, 0, False, kind, '*')
-            note(name, 2, 0, False, kind, '*')
+            note(name, 1, 1, False, kind, '*')
+            note(name, 2, 2, False, kind, '*')
         else:
             reads.append(bamgen.make_read(header, name, None, 0, _seq(rng, l1), _qual(rng, l1), unmapped=True, tags=tg))
             note(name, 0, 0, False, kind, '*')
